@@ -84,3 +84,17 @@ pub fn call_events(t: &mut TraceFile, evs: &[verif::Event]) {
         }
     }
 }
+
+/// record mechanism events (Trace_Adt.tla): the writer's and the reader's decisions per field
+pub fn adt_events(t: &mut TraceFile, evs: &[verif::Event]) {
+    for e in evs {
+        match e.kind {
+            "anew" => t.line(json!({"ev": "anew", "ver": e.a, "buf": e.b})),
+            "wf" => t.line(json!({"ev": "wf", "chunk": e.a, "buf": e.b, "n": e.s.as_bytes()})),
+            "afin" => t.line(json!({"ev": "afin", "nb": e.a})),
+            "dnew" => t.line(json!({"ev": "dnew", "stored": e.a, "nin": e.b, "ver": e.c})),
+            "rf" => t.line(json!({"ev": "rf", "kind": e.a, "chunk": e.b, "n": e.s.as_bytes()})),
+            _ => {}
+        }
+    }
+}
